@@ -66,6 +66,14 @@ CLAIMS = {
         "text": "Atomic-pattern rule on the single static LAST_TIMESTAMP: only a load and compare-exchange style RMWs touch it; now() returns exactly the installed value and only on the RMW's Ok edge; installed = max(clock, expected+1) with expected the RMW's expected operand; failed RMW retries from the observed value. One variable => total modification order under Relaxed.",
         "technique": "who-uses inventory of the static, success-edge dominance, copy-chain provenance of RMW operands",
     },
+    "C34": {
+        "text": "Decides (a) no division/remainder in add_jitter has a possibly-zero divisor (literal, NonZero provenance, or a dominating comparison with 0 on the same value) and (b) stagger_call's control shape: Ok straight from the first Some(Ok), Err only after exhaustion carrying the list every failed call was pushed to, one call per delay plus the immediate one. Jitter bounds and timing are not decided.",
+        "technique": "partial-arithmetic (non-zero divisor) rule on MIR Div/Rem statements + success-edge dominance / provenance on the awaited stream items",
+    },
+    "C35": {
+        "text": "State-machine discipline of resolve_host_all's unfold closure on all paths: closed checked first and set before every terminal item, ResolveBoth needs both stored errors, NoResponse needs !yielded, yielded set exactly on address yields, per-family symmetry (own address kind, own error slot), terminal branch requires both lookups finished; literal hosts give single-item streams. Termination/timing not decided.",
+        "technique": "dominance of flag writes over terminal yields, success-edge dominance on field tests, select!-arm table agreement (v4/v6)",
+    },
 }
 
 _PENDING = "rules for this property are not implemented yet in this revision (see DESIGN.md §4 for the planned structural clauses)"
